@@ -40,6 +40,9 @@ CLAIMED = {
  "C14": ("serialisation-layout extraction (ordered buffer writes with sizes and value provenance) compared with the table parsed from doc/BINARY_FORMATS.md; escape check of the header buffer (static)",
          "Layout clauses decided for every record: each builder's header is exactly the documented (offset, width, int/float) slot sequence (36 and 48 bytes; the table is parsed from the document at run time); every slot carries the plain record field (conversions only), version 0 and the signedness-selected type code; both builders stamp the same time/frame expressions; the message is a two-frame literal of the bytes of a fresh, unshared header buffer and the byte view of the whole sample / coefficient slice; the first two bytes are the channel index; the publisher goroutine sends exactly the builder's result and the two ports use their own builders; byte-view helpers return exactly sizeof(T) / len*sizeof(elem) bytes of their argument. Not decided: end-to-end receipt on a SUB socket.",
          "little-endian host; bytes.Buffer.Write appends and never fails; doc/BINARY_FORMATS.md bullet format `* Byte N (k bytes): ...`", "DESIGN.md §2 C14"),
+ "C20": ("typestate / must-pass-through on the stop and start paths, occurrence counting of writes per event, argument provenance, control dependence of the log write, who-may-touch (static)",
+         "Structural clauses decided for every path: STOP flushes, closes and clears each open side file, writes the STOP label before closing the state file and clears all three file names unconditionally; START assigns the three names from the new pattern with distinct stems and writes the START label on every path; side files are created only from the current name under a nil test of the handle; an external-trigger block is written at most once as the byte view of the whole list, conditional only on writer-exists and list-non-empty; a block with drops while active appends exactly one line of (first frame, drop count), gated only by the drop count and the activity predicate; every accepted label request has passed exactly one label-line write; only the writing-state methods and the two block handlers touch the handles. Not decided: file contents versus an event log, I/O failure paths.",
+         "WritingState handle fields discovered by type (*os.File, *bufio.Writer) and paired by name prefix", "DESIGN.md §2 C20"),
  "C13": ("dominating-comparison facts, path rule, control dependence and flow-insensitive dependence slicing on SSA (static)",
          "Structural necessary conditions only (the numeric identities are not decided): projectors/basis installed only after the three shape equalities hold; record length never changed while projectors validated for another length stay installed; sample->float64 conversions under the matching arm of the signed flag; each analysis result depends on the record's own data/pre-trigger count (never on the per-channel length setting), model coefficients on the projector matrix, residual on the basis matrix; slices stored into a record are fresh per record.",
          "dependence is over-approximated through memory of locals, make() sites and struct-field storage; field names of DataRecord are name-keyed anchors", "DESIGN.md §2 C13"),
